@@ -6,11 +6,14 @@ use serde_json::Map;
 
 pub mod common;
 pub mod parse_common;
+pub mod c01;
 pub mod c03;
 pub mod c04;
 pub mod c05;
 pub mod c06;
 pub mod c08;
+pub mod c09;
+pub mod c14;
 pub mod c15;
 pub mod c18;
 
@@ -30,7 +33,10 @@ pub fn meta(args: &Args, rule: &str, assumptions: &[&str]) -> Meta {
 
 pub fn dispatch(args: &Args) -> i32 {
     let (m, st): (Meta, Stats) = match args.id.as_str() {
+        "C01" => c01::run(args),
         "C03" => c03::run(args),
+        "C09" => c09::run(args),
+        "C14" => c14::run(args),
         "C04" => c04::run(args),
         "C05" => c05::run(args),
         "C06" => c06::run(args),
